@@ -215,6 +215,11 @@ def mutate_doc(rng, data, classes):
     #  end of a bidirectional reference from the other end, is the Store's business — bidirectional ends are left alone)
     plain = [k for k in e.attrib if not k.startswith('{') and (k not in feats or feats[k].is_attribute or feats[k].eOpposite is None)]
     kids = [c for c in e if isinstance(c.tag, str)]
+    if kind in ('drop-child', 'dup-child', 'swap-children') and any(
+            a in feats and not feats[a].is_attribute and feats[a].eOpposite is not None for x in root.iter() for a in x.attrib):
+        # moving objects to other positions makes a positional token name another object: with a bidirectional
+        # reference in the document the two ends then state different things and load's handshake merges them
+        return None
     if kind == 'drop-attr' and plain:
         del e.attrib[rng.choice(plain)]
     elif kind == 'drop-child' and kids:
